@@ -102,6 +102,9 @@ class CheckComparisons(MultiFunction):
     ln = sqrt
     acos = sqrt
     asin = sqrt
+    # Bessel functions of the second kind are real for positive arguments only
+    bessel_y = sqrt
+    bessel_k = sqrt
 
     def power(self, o, base, exponent):
         """Apply to power."""
